@@ -349,8 +349,9 @@ fn action_json(rng: &mut Rng, with_nul_header: bool) -> String {
         };
         body_filters.push(format!(r#"{{"filter":{f},"on_response_status_codes":[],"exclude_response_status_codes":false,"rule_id":"b{i}"}}"#));
     }
-    let log = match rng.below(3) {
+    let log = match rng.below(4) {
         0 => "null".to_string(),
+        3 => r#"{"log_override":true,"rule_id":"r-log","on_response_status_codes":[],"exclude_response_status_codes":false,"fallback_log_override":null,"fallback_rule_id":null,"unit_id":null}"#.to_string(),
         1 => r#"{"log_override":false,"rule_id":"r1","on_response_status_codes":[],"exclude_response_status_codes":false,"fallback_log_override":null,"fallback_rule_id":null,"unit_id":null}"#.to_string(),
         _ => r#"{"log_override":true,"rule_id":"r2","on_response_status_codes":[404],"exclude_response_status_codes":false,"fallback_log_override":false,"fallback_rule_id":"r1","unit_id":"u"}"#.to_string(),
     };
@@ -537,7 +538,13 @@ unsafe fn scenario_lifecycle(seed: u64, max_payload: usize, out: &mut Outcome) {
 
     let allow = rng.coin();
     let got = redirectionio_action_should_log_request(action, allow, code);
-    out.check(got == native_a.should_log_request(allow, code, None), || "should_log_request differs from native".to_string());
+    out.check(got == native_a.should_log_request(allow, code, None), || format!("should_log_request({allow}, {code}) = {got} differs from native"));
+    // the calls above mutate the action (applied rule ids): the object behind the C pointer must have gone
+    // through the same history as the native one
+    let s = take_string(redirectionio_action_json_serialize(action));
+    out.check(s.as_deref() == Some(serde_json::to_string(&native_a).unwrap().as_str()), || {
+        "action serialisation after get_status_code / header filter / body filter / should_log differs from the native action after the same calls".to_string()
+    });
 
     // log line
     if !request.is_null() {
